@@ -139,13 +139,69 @@ func (f *verifScriptedForwarder) ForwardDNS(ctx context.Context, data []byte) (*
 	resp.SetReply(&q)
 	resp.RecursionAvailable = true
 	for _, a := range addrs {
-		if a.Is4() {
+		switch {
+		case qtype != dnsmessage.TypeA && qtype != dnsmessage.TypeAAAA:
+			// a question for another record type is answered with a record of exactly that type whose payload
+			// carries the identifying address as a tag
+			if rr := verifTagRR(name, qtype, ttl, a); rr != nil {
+				resp.Answer = append(resp.Answer, rr)
+			}
+		case a.Is4():
 			resp.Answer = append(resp.Answer, &dnsmessage.A{Hdr: dnsmessage.RR_Header{Name: name, Rrtype: dnsmessage.TypeA, Class: dnsmessage.ClassINET, Ttl: ttl}, A: net.IP(a.AsSlice())})
-		} else {
+		default:
 			resp.Answer = append(resp.Answer, &dnsmessage.AAAA{Hdr: dnsmessage.RR_Header{Name: name, Rrtype: dnsmessage.TypeAAAA, Class: dnsmessage.ClassINET, Ttl: ttl}, AAAA: net.IP(a.AsSlice())})
 		}
 	}
 	return resp, nil
+}
+
+// verifTagRR builds a record of type qtype (SOA, TXT, SVCB, HTTPS) tagged with addr.
+func verifTagRR(name string, qtype uint16, ttl uint32, addr netip.Addr) dnsmessage.RR {
+	tag := "t-" + strings.NewReplacer(".", "-", ":", "-").Replace(addr.String()) + ".verif."
+	hdr := dnsmessage.RR_Header{Name: name, Rrtype: qtype, Class: dnsmessage.ClassINET, Ttl: ttl}
+	switch qtype {
+	case dnsmessage.TypeSOA:
+		return &dnsmessage.SOA{Hdr: hdr, Ns: tag, Mbox: "h.verif.", Serial: 1, Refresh: 2, Retry: 3, Expire: 4, Minttl: 5}
+	case dnsmessage.TypeTXT:
+		return &dnsmessage.TXT{Hdr: hdr, Txt: []string{tag}}
+	case dnsmessage.TypeSVCB:
+		return &dnsmessage.SVCB{Hdr: hdr, Priority: 1, Target: tag}
+	case dnsmessage.TypeHTTPS:
+		return &dnsmessage.HTTPS{SVCB: dnsmessage.SVCB{Hdr: hdr, Priority: 1, Target: tag}}
+	}
+	return nil
+}
+
+// verifRRIdent returns the identifying address of an answer record: the address of an A/AAAA record, the tag of a
+// record built by verifTagRR.
+func verifRRIdent(rr dnsmessage.RR) (netip.Addr, bool) {
+	if a, ok := dnsAnswerIP(rr); ok {
+		return a.Unmap(), true
+	}
+	tag := ""
+	switch b := rr.(type) {
+	case *dnsmessage.SOA:
+		tag = b.Ns
+	case *dnsmessage.TXT:
+		if len(b.Txt) > 0 {
+			tag = b.Txt[0]
+		}
+	case *dnsmessage.SVCB:
+		tag = b.Target
+	case *dnsmessage.HTTPS:
+		tag = b.Target
+	}
+	if !strings.HasPrefix(tag, "t-") || !strings.HasSuffix(tag, ".verif.") {
+		return netip.Addr{}, false
+	}
+	body := strings.TrimSuffix(strings.TrimPrefix(tag, "t-"), ".verif.")
+	if a, err := netip.ParseAddr(strings.ReplaceAll(body, "-", ".")); err == nil {
+		return a, true
+	}
+	if a, err := netip.ParseAddr(strings.ReplaceAll(body, "-", ":")); err == nil {
+		return a, true
+	}
+	return netip.Addr{}, false
 }
 
 func (f *verifScriptedForwarder) Close() error { return nil }
@@ -394,7 +450,8 @@ type VerifReply struct {
 	Rcode     int
 	QName     string
 	QType     uint16
-	Addrs     []netip.Addr    // A/AAAA records of the answer section, in order
+	Addrs     []netip.Addr    // identifying address of every answer record (A/AAAA address, or the tag of another type), in order
+	RRTypes   []uint16        // type of every record of the answer section
 	Ttls      []uint32        // their TTL fields
 	Sync      []VerifExchange // upstream exchanges that started during the call (in the calling thread or not)
 	Panic     string
@@ -457,8 +514,9 @@ func (e *VerifDnsCtl) Ask(scope, name string, qtype uint16, realDst netip.AddrPo
 			out.QName, out.QType = m.Question[0].Name, m.Question[0].Qtype
 		}
 		for _, rr := range m.Answer {
-			if a, ok := dnsAnswerIP(rr); ok {
-				out.Addrs = append(out.Addrs, a.Unmap())
+			out.RRTypes = append(out.RRTypes, rr.Header().Rrtype)
+			if a, ok := verifRRIdent(rr); ok {
+				out.Addrs = append(out.Addrs, a)
 				out.Ttls = append(out.Ttls, rr.Header().Ttl)
 			}
 		}
@@ -605,8 +663,8 @@ func (e *VerifDnsCtl) DumpCache() []VerifCacheEntryDump {
 			Refreshing: c.refreshing.Load(), LastAccessRel: verifRel(c.lastAccessNano.Load(), now),
 			RouteSyncRel: verifRel(c.lastRouteSyncNano.Load(), now), Owner: c.RouteOwnerKey}
 		for _, rr := range c.Answer {
-			if a, ok := dnsAnswerIP(rr); ok {
-				d.Addrs = append(d.Addrs, a.Unmap())
+			if a, ok := verifRRIdent(rr); ok {
+				d.Addrs = append(d.Addrs, a)
 			}
 		}
 		nz := false
